@@ -170,7 +170,10 @@ def worker(sh):
                 if kw.get('shared'):
                     sh.count('adjust_calls_with_shared_list_storage', int(kv.get('shared', 0)))
                     if int(kv.get('shared', 0)) < len(lists) - 2:
-                        raise harness.HarnessError('driver shared storage in only %s of %d steps: %s' % (kv.get('shared'), len(lists) - 1, line[:200]))
+                        # every list of this chain is a view of the first one's entries: the driver can only fail to share storage when the
+                        # bytes of a list it had handed to the library (as const) are no longer what it parsed
+                        fail('input-modified:attribute-list', 'an attribute list passed to adjust_precomputed as a const argument was modified by the call (views of one array shared storage in only %s of %d steps)'
+                             % (kv.get('shared'), len(lists) - 1))
                 if sh.index == 0:
                     sh.sample({'op': 'adjust_precomputed', 'lists': [[(i, (hex(v) if v is not None else 'hidden')) for i, v in e] for e in lists], 'steps': steps}, limit=2)
             elif kind == 'adjcmp':
